@@ -135,6 +135,19 @@ def r2(ctx):
     ctx.require(ok, b, 'flag-cleared', 'the flag is cleared on the non-whitespace path (no second space for the same run)', None)
     rv = ret_values(b)
     ctx.require(len(rv) == 1 and match(core(rv[0][0]), V(outv)), b, 'result', 'returns the accumulated output', None)
+    # every character is visited: the scan is left only when the characters are exhausted (a length cap or an early exit drops the rest of the text)
+    from rules.common import full_traversal
+    full_traversal(ctx, b, Call('CharString::chars', ANY), 'scan-complete', 'clean')
+    # ... and the output is only appended to
+    for t in b.terms('call'):
+        if not t.args or t.args[0].place is None or 'mut' not in b.local_ty(t.args[0].place.local):
+            continue
+        r_ = core(sym(b, t.args[0]))
+        if r_[0] == 'var' and len(r_) > 2 and r_[2] == outv:
+            n_ = (t.callee_res() or '').rsplit('::', 1)[-1]
+            ctx.require(n_ in ('push', 'push_str', 'reserve', 'write_str', 'write_char', 'extend', 'shrink_to_fit', 'deref', 'deref_mut', 'as_mut_str'), b, 'output-append-only|' + n_,
+                        'clean(): the output is only appended to (line %d: %s)' % (t.span['line'], n_),
+                        'clean(): the output is modified by `%s` at line %d: characters already copied are removed or changed' % (n_, t.span['line']), t.span)
 
 
 @rule('C11', 'R-C11-3', 'T13 PAIR (remove / full)',
@@ -266,6 +279,27 @@ def r4(ctx):
     v = core(sym(b, out[0].args[1]))
     ok = v[0] == 'agg' and len(v[3]) == 2 and match(v[3][1], V(cnt)) and has(v[3][0], V(start)) and any(match(core(t), V(start)) and n == {'Some'} for t, n in variant_facts_at(b, out[0].bb))
     ctx.require(ok, b, 'trailing-word', 'the trailing word is (start, number of characters)', 'trailing word is %s' % show_in(b, v), out[0].span)
+    # ... and it is pushed whenever a word is still open: the only other test allowed in front of the push is the vacuous `start < num_elements`
+    extra = []
+    for t_, pol_, g_ in atoms_at(b, out[0].bb):
+        if g_.block in loop.blocks:
+            continue
+        c_ = core(t_)
+        if t_[0] == 'discr' or c_[0] == 'discr' or (c_[0] == 'call' and c_[1].rsplit('::', 1)[-1] in ('is_some', 'is_none') and has(c_, V(start))):
+            continue    # the test that a word is open
+        def is_start(u):
+            u = core(u)
+            while isinstance(u, tuple) and u and (u[0] == 'unwrap' or (u[0] == 'field' and isinstance(u[1], tuple) and u[1] and u[1][0] == 'variant')):
+                u = core(u[1] if u[0] == 'unwrap' else u[1][1])
+            return match(u, V(start))
+        vac = pol_ is True and ((c_[0] == 'bin' and c_[1] == 'Lt' and is_start(c_[2]) and match(core(c_[3]), V(cnt))) or
+                                (c_[0] == 'bin' and c_[1] == 'Gt' and match(core(c_[2]), V(cnt)) and is_start(c_[3])))
+        if not vac:
+            extra.append(('' if pol_ else '!') + show_in(b, t_)[:60])
+    ctx.require(not extra, b, 'trailing-word-unconditional', 'an open word at the end of the text is always reported',
+                'the trailing word is reported only under %s: a last word (e.g. of one character) can be lost' % extra, out[0].span)
+    from rules.common import full_traversal
+    full_traversal(ctx, b, Call('CharString::chars', ANY), 'scan-complete', 'word_boundaries')
     cnts = stores_to_local(b, cnt)
     inc = [(s, val) for s, val in cnts if s.bb in loop.blocks]
     ok = len(inc) == 1 and match(core(inc[0][1]), ('bin', 'Add', V(cnt), Const(1))) and \
